@@ -39,3 +39,86 @@ pub mod roxmltree {
     #[verifier::external_body]
     pub struct Error { _p: () }
 }
+//# section: roxmltree-node
+// Contract-only stand-in for the part of roxmltree the flattening functions use (unit X).  A Node is an opaque Copy handle; the
+// document tree is described by uninterpreted functions (attr, tag, is_elem, parent_of, all_kids, elem_kids, height).
+pub mod roxmltree {
+    use vstd::prelude::*;
+    #[verifier::external_body]
+    pub struct Error { _p: () }
+    // contract-only stand-in for roxmltree::Node: an opaque Copy handle; the document tree is described by uninterpreted functions
+    #[verifier::external_body]
+    pub struct Node<'a, 'input: 'a> { _p: core::marker::PhantomData<(&'a (), &'input ())> }
+    impl<'a, 'input: 'a> Clone for Node<'a, 'input> {
+        #[verifier::external_body]
+        fn clone(&self) -> (r: Self) ensures r == *self { unimplemented!() }
+    }
+    impl<'a, 'input: 'a> Copy for Node<'a, 'input> {}
+    #[verifier::external_body]
+    pub struct ExpandedName<'a, 'b> { _p: core::marker::PhantomData<(&'a (), &'b ())> }
+    pub uninterp spec fn attr(n: Node, name: Seq<char>) -> Option<Seq<char>>;
+    pub uninterp spec fn tag(n: Node) -> Seq<char>;
+    pub uninterp spec fn is_elem(n: Node) -> bool;
+    pub uninterp spec fn parent_of<'a, 'b>(n: Node<'a, 'b>) -> Option<Node<'a, 'b>>;
+    pub uninterp spec fn elem_kids<'a, 'b>(n: Node<'a, 'b>) -> Seq<Node<'a, 'b>>;
+    pub uninterp spec fn height(n: Node) -> nat;
+    pub uninterp spec fn en_local(e: ExpandedName) -> Seq<char>;
+    // TRUSTED: a document is a finite tree: every child is strictly lower than its parent
+    pub broadcast axiom fn kid_lower(n: Node, i: int)
+        requires 0 <= i < elem_kids(n).len()
+        ensures height(#[trigger] elem_kids(n)[i]) < height(n), is_elem(elem_kids(n)[i]), parent_of(elem_kids(n)[i]) == Some(n);
+    impl<'a, 'input: 'a> Node<'a, 'input> {
+        #[verifier::external_body]
+        pub fn attribute(&self, name: &str) -> (r: Option<&'a str>)
+            ensures match r { Some(v) => attr(*self, name@) == Some(v@), None => attr(*self, name@) is None }
+        { unimplemented!() }
+        #[verifier::external_body]
+        pub fn tag_name(&self) -> (r: ExpandedName<'a, 'input>) ensures en_local(r) == tag(*self) { unimplemented!() }
+        #[verifier::external_body]
+        pub fn is_element(&self) -> (r: bool) ensures r == is_elem(*self) { unimplemented!() }
+        #[verifier::external_body]
+        pub fn parent(&self) -> (r: Option<Node<'a, 'input>>) ensures r == parent_of(*self) { unimplemented!() }
+    }
+    impl<'a, 'b> ExpandedName<'a, 'b> {
+        #[verifier::external_body]
+        pub fn name(&self) -> (r: &'a str) ensures r@ == en_local(*self) { unimplemented!() }
+    }
+    pub uninterp spec fn all_kids<'a, 'b>(n: Node<'a, 'b>) -> Seq<Node<'a, 'b>>;
+    // TRUSTED: the element children are exactly the children that are elements (what `.filter(Node::is_element)` keeps)
+    pub broadcast axiom fn elem_kid_is_kid(n: Node, i: int)
+        requires 0 <= i < elem_kids(n).len()
+        ensures all_kids(n).contains(#[trigger] elem_kids(n)[i]);
+    pub broadcast axiom fn kid_elem_is_elem_kid(n: Node, i: int)
+        requires 0 <= i < all_kids(n).len(), is_elem(#[trigger] all_kids(n)[i])
+        ensures elem_kids(n).contains(all_kids(n)[i]);
+    #[verifier::external_body]
+    pub struct Children<'a, 'input: 'a> { _p: core::marker::PhantomData<(&'a (), &'input ())> }
+    pub uninterp spec fn ch_seq<'a, 'b>(c: Children<'a, 'b>) -> Seq<Node<'a, 'b>>;
+    impl<'a, 'input: 'a> Node<'a, 'input> {
+        #[verifier::external_body]
+        pub fn children(&self) -> (r: Children<'a, 'input>) ensures ch_seq(r) == all_kids(*self) { unimplemented!() }
+    }
+    impl<'a, 'input: 'a> Children<'a, 'input> {
+        // Iterator::find / Iterator::any of roxmltree::Children (std docs), stated through the closure's own postcondition
+        #[verifier::external_body]
+        pub fn find<P: FnMut(&Node<'a, 'input>) -> bool>(&mut self, p: P) -> (r: Option<Node<'a, 'input>>)
+            requires forall|x: &Node<'a, 'input>| p.requires((x,)),
+            ensures
+                r is Some ==> exists|i: int| 0 <= i < ch_seq(*old(self)).len() && r->0 == #[trigger] ch_seq(*old(self))[i] && p.ensures((&r->0,), true)
+                    && forall|j: int| 0 <= j < i ==> p.ensures((&#[trigger] ch_seq(*old(self))[j],), false),
+                r is None ==> forall|i: int| 0 <= i < ch_seq(*old(self)).len() ==> p.ensures((&#[trigger] ch_seq(*old(self))[i],), false),
+        { unimplemented!() }
+        #[verifier::external_body]
+        pub fn any<P: FnMut(Node<'a, 'input>) -> bool>(&mut self, p: P) -> (r: bool)
+            requires forall|x: Node<'a, 'input>| p.requires((x,)),
+            ensures
+                r ==> exists|i: int| 0 <= i < ch_seq(*old(self)).len() && p.ensures((#[trigger] ch_seq(*old(self))[i],), true),
+                !r ==> forall|i: int| 0 <= i < ch_seq(*old(self)).len() ==> p.ensures((#[trigger] ch_seq(*old(self))[i],), false),
+        { unimplemented!() }
+    }
+    // presentation of `N.children().filter(Node::is_element)`: the element children of N, in document order
+    #[verifier::external_body]
+    pub fn element_children<'a, 'input: 'a>(n: Node<'a, 'input>) -> (r: Vec<Node<'a, 'input>>)
+        ensures r@ == elem_kids(n)
+    { unimplemented!() }
+}
